@@ -142,12 +142,12 @@ theorem weightsOk_all (s : InSeg) : weightsOk s = true := by
 
 /-! ## 2. the search: candidates use graph edges, at most `MAX_SEGMENTS` of them -/
 
-theorem validNext_len {es : List GEdge} {n : InSeg} (h : validNext es n = true) : es.length ≤ 2 := by
+theorem validNext_len {es : List GEdge} {n : GEdge} (h : validNext es n = true) : es.length ≤ 2 := by
   unfold validNext at h
   split at h <;> simp_all
 
 theorem mem_extend {g : List GEdge} {s t : Sol} (h : t ∈ extend g s) :
-    ∃ e ∈ g, e.src = s.cur ∧ validNext s.edges e.seg = true ∧
+    ∃ e ∈ g, e.src = s.cur ∧ validNext s.edges e = true ∧
       t = ⟨s.edges ++ [e], e.dst, s.cost + e.edge.weight⟩ := by
   unfold extend at h
   rcases List.mem_filterMap.mp h with ⟨e, he, hf⟩
@@ -1022,7 +1022,7 @@ theorem extend_filter (g : List GEdge) (Q : GEdge → Bool) (s : Sol) :
   | nil => simp
   | cons e es ih =>
     simp only [List.filterMap_cons, List.filter_cons]
-    by_cases hc : e.src = s.cur ∧ validNext s.edges e.seg = true
+    by_cases hc : e.src = s.cur ∧ validNext s.edges e = true
     · simp only [hc, and_self, if_true, List.filter_cons]
       have hP : Sol.allEdges Q ⟨s.edges ++ [e], e.dst, s.cost + e.edge.weight⟩ = (s.allEdges Q && Q e) := by
         simp [Sol.allEdges, List.all_append]
